@@ -114,6 +114,10 @@ def main():
         tasks.append((pair, 2, 1, 1))
         if tier != "quick":
             tasks.append((pair, 1, 2, 8))
+    # big state: two (thorough: three) decoders each holding 300 reassemblies of 65000 bytes at once, all interleavings of their phases
+    tasks.append((("decbig", "decbig"), 0, 99, 1))
+    if tier != "quick":
+        tasks.append((("decbig", "decbig", "decbig"), 0, 99, 1))
     if tier != "quick":
         tasks.append((("encshared", "statusshared", "encshared"), 1, 1, 4))
     if tier != "quick":
